@@ -14,20 +14,27 @@ type zzNote struct {
 func zzThreadedStore(capv int64, notes *[]zzNote) *Store[uint64, uint64] {
 	vfSetHashMode(1)
 	StripedBufferSize = 1
+	if vfConfig("POOL", 0) == 1 {
+		vfSetPoolMode(vfConfig("POOLMODE", 1)) // 1: LIFO reuse, 2: adversarial choice among pooled entries
+	}
 	if q := vfConfig("WQ", 0); q > 0 {
 		WriteChanSize = q
 	}
 	if b := vfConfig("WB", 0); b > 0 {
 		WriteBufferSize = b
 	}
-	return NewStore[uint64, uint64](&StoreOptions[uint64, uint64]{
-		MaxSize: capv,
+	s := NewStore[uint64, uint64](&StoreOptions[uint64, uint64]{
+		MaxSize:    capv,
+		EntryPool:  vfConfig("POOL", 0) == 1,
+		Doorkeeper: vfConfig("DOOR", 0) == 1,
 		Listener: func(k, v uint64, r RemoveReason) {
 			if notes != nil {
 				*notes = append(*notes, zzNote{k, v, r})
 			}
 		},
 	})
+	vfQuiesce() // start-up settles: the maintenance goroutines reach their idle select and the ticker exists
+	return s
 }
 
 // zzAccounted: every entry in the shard maps is on exactly one region list with policyWeight == weight, and the totals agree.
